@@ -271,12 +271,14 @@ Fixpoint exec (fuel : nat) (W : world) (G : gstate) (F : fctx) (I : istate) {str
   end.
 
 (* ---------------------------------------------------------------- the transaction *)
+(* EIP-2935 history storage contract (final EIP address). It is NOT pre-warmed: neither the final
+   EIP nor the Prague execution specification adds it to the accessed addresses (the tree used to
+   pre-warm an early draft's address; repaired by a fix: commit, see known_findings.json). *)
 Definition BLOCKHASH_STORAGE_ADDRESS : Z := 0x0000F90827F1C53a10cb7A02335B175320002935.
 
 Definition warm_preloaded (W : world) (a : Z) : bool :=
   is_precompile W a
-  || (en (w_spec W) E.SHANGHAI && (a =? w_coinbase W))
-  || (en (w_spec W) E.PRAGUE && (a =? BLOCKHASH_STORAGE_ADDRESS)).
+  || (en (w_spec W) E.SHANGHAI && (a =? w_coinbase W)).
 
 Definition gstate_new (W : world) : gstate :=
   mkG (H.jnew (en (w_spec W) E.SPURIOUS_DRAGON) (en (w_spec W) E.CANCUN) (warm_preloaded W), [])
